@@ -1022,6 +1022,66 @@ pub fn run(tier: Tier) -> i32 {
         exhaustive: true,
         extra: vec![],
     });
+    // every ordered pair of records of one 40-sample population under projection to 10 chromosomes,
+    // for the records with 76, 78 and 80 called chromosomes and every ALT count (a cache keyed by a
+    // summary of a record must not confuse two records): the pair gives the sum of the two alone
+    {
+        let n_samples = 40usize;
+        let m = 10usize;
+        let ts: &[usize] = if tier.thorough() { &[72, 74, 76, 78, 80] } else { &[76, 78, 80] };
+        let states: Vec<(usize, usize)> = ts.iter().flat_map(|&t| (0..=t).map(move |a| (t, a))).collect();
+        let row = |t: usize, a: usize| -> Vec<Cls> {
+            let called = t / 2;
+            let mut remaining = a;
+            (0..n_samples)
+                .map(|i| {
+                    if i < called {
+                        let g = remaining.min(2);
+                        remaining -= g;
+                        [Cls::G0, Cls::G1, Cls::G2][g]
+                    } else {
+                        Cls::Missing
+                    }
+                })
+                .collect()
+        };
+        let map: Vec<Option<usize>> = vec![Some(0); n_samples];
+        let single: Vec<Result<RefArray, String>> = par_map(states.len(), |i| {
+            let (t, a) = states[i];
+            build_site_reader(Box::new(MemReader::from_classes(n_samples, &[row(t, a)])), &map, Some(&[m + 1])).and_then(|mut r| run_reader(&mut r)).map(|c| c.spectrum)
+        });
+        let n_states = states.len();
+        let res = par_map(n_states, |i| {
+            let mut out: Vec<Viol> = Vec::new();
+            let (t1, a1) = states[i];
+            for (j, &(t2, a2)) in states.iter().enumerate() {
+                let got = build_site_reader(Box::new(MemReader::from_classes(n_samples, &[row(t1, a1), row(t2, a2)])), &map, Some(&[m + 1])).and_then(|mut r| run_reader(&mut r)).map(|c| c.spectrum);
+                let ok = match (&got, &single[i], &single[j]) {
+                    (Ok(g), Ok(x), Ok(y)) => g.data.len() == x.data.len() && g.data.iter().zip(x.data.iter().zip(&y.data)).all(|(v, (p, q))| (v - (p + q)).abs() <= 1e-12),
+                    _ => false,
+                };
+                if !ok && out.len() < 2 {
+                    out.push((
+                        "C11|lib|pair-not-additive|40-sample-cohort".to_string(),
+                        format!("records with ({t1} called, {a1} ALT) then ({t2} called, {a2} ALT) chromosomes among 40 samples, projected to {m}: {:?}; the two records alone give {:?} and {:?}", got.as_ref().map(|g| &g.data), single[i].as_ref().map(|g| &g.data), single[j].as_ref().map(|g| &g.data)),
+                        J::obj([("kind", J::s("c11-cohort-pair")), ("first", J::usizes(&[t1, a1])), ("second", J::usizes(&[t2, a2]))]),
+                    ));
+                }
+            }
+            out
+        });
+        for v in res.into_iter().flatten() {
+            rep.violation(v.0, v.1, v.2);
+        }
+        rep.part(Part {
+            name: "lib: ordered pairs of records of a 40-sample cohort under projection".into(),
+            evaluations: (n_states * n_states) as u64,
+            nontrivial: (n_states * n_states) as u64,
+            note: format!("{n_states} records (called chromosomes {ts:?}, every ALT count) of one population of 40 samples, every ordered pair as a two-record stream projected to {m} chromosomes: the sum of the two one-record results within 1e-12"),
+            exhaustive: true,
+            extra: vec![],
+        });
+    }
     rep.assumptions = vec![
         "the BFS key is the hook snapshot; hidden state outside the snapshot is still exercised because every transition is executed from a representative history and all histories up to the length bound are run as well".into(),
         "row spellings: ".to_string() + &ks.iter().map(|(n, r)| format!("{n}={}", row_str(r))).collect::<Vec<_>>().join(" "),
